@@ -404,6 +404,8 @@ PROPS["C19"] = dict(
   level_note="Trusted: Coq kernel, extraction, OCaml adapter (value observation encoding), Go harness; reflect modelled (panic conditions of Type/Value methods, FuncOf limit 128). CallArgsRaw/CallResultsRaw out of scope.",
   rule="signatures built with reflect.FuncOf/MakeFunc over a 32-type universe; EXHAUSTIVE: one argument (16 param types x 55 pool values incl. untyped nil and typed nils, plain and variadic), one result x every pool value as CallResults/CallResultsSlice target, two arguments over reduced pools (quick) / full pools (thorough, 774,400 cases), length sweeps incl. omitted CallArgs, 100..200 variadic arguments; plus seeded arity 0..4 cases, 25% malformed. Every record decided by the extracted model; monitors: no panic, error => not invoked and targets untouched, nil error => invoked once with exactly the given arguments and targets equal to a direct reflect call. non-trivial = invoked with >=1 argument, or an error for a call with arguments/targets; distinct by signature + option shapes",
   stages=[corr_stage("C19K1", 40000, 100000, feature=feat_c19, seeds=3),
+            corr_stage("C19PANICS", 300, 3000, validate=False),
+            corr_stage("C19UNTOUCHED", 3000, 30000, validate=False),
           thorough_only(corr_stage("C19K1", 1, 1, params={"part": "a2full"}, feature=feat_c19))],
 )
 
